@@ -227,6 +227,9 @@ class Facts:
             for n, v in e["e"]:
                 self.enum_by_const[n] = (e["n"], v)
         self.records = {r["n"]: r for r in raw["records"] if r["n"]}
+        for f in self.funcs.values():
+            if "body" in f:
+                _normalise_steps(f["body"])
 
     def func(self, name, need_body=True):
         f = self.funcs.get(name)
@@ -253,6 +256,32 @@ class Facts:
 # --------------------------------------------------------------------------
 # tree helpers
 # --------------------------------------------------------------------------
+
+def _normalise_steps(body):
+    """`x += 1`, `x -= 1` and `x = x + 1` are the same statement as `++x` / `--x` (same effect, same value): the rules speak of
+    increments, so the three spellings are brought to the one form in place (node ids are kept, so the CFG still refers to them)."""
+    stack = [body]
+    while stack:
+        n = stack.pop()
+        if n is None:
+            continue
+        stack.extend(c for c in n.get("c", []) if c is not None)
+        if n["k"] == "DeclStmt":
+            stack.extend(d["init"] for d in n.get("decls", []) if d.get("init") is not None)
+        if n["k"] not in ("BinaryOperator", "CompoundAssignOperator") or len(n.get("c", [])) != 2:
+            continue
+        op = n.get("op")
+        if op in ("+=", "-=") and const_value(n["c"][1]) == 1:
+            n["k"], n["op"], n["c"] = "UnaryOperator", ("++" if op == "+=" else "--"), [n["c"][0]]
+            n.pop("cv", None)
+        elif op == "=":
+            l, r = strip(n["c"][0]), strip(n["c"][1])
+            if l is not None and l["k"] == "DeclRefExpr" and r is not None and r["k"] == "BinaryOperator" and r["op"] in ("+", "-"):
+                a = strip(r["c"][0])
+                if a is not None and a["k"] == "DeclRefExpr" and a["n"] == l["n"] and const_value(r["c"][1]) == 1:
+                    n["k"], n["op"], n["c"] = "UnaryOperator", ("++" if r["op"] == "+" else "--"), [n["c"][0]]
+                    n.pop("cv", None)
+
 
 def kids(n):
     return [c for c in n.get("c", []) if c is not None]
